@@ -1335,6 +1335,9 @@ DEFECT_PROBES = [
     ("cat[repeat_at_most0]", "regex:concat-epsilon-component", {"op": "cat", "xs": [_b('b'), {"op": "repeat_at_most", "x": _b('a'), "n": 0}]}),
     ("terminated[optional-eps]", "regex:concat-epsilon-component", {"op": "terminated", "x": _b('b'), "y": {"op": "optional", "x": {"op": "epsilon"}}}),
     ("delimited[eps-by-inter]", "regex:concat-epsilon-component", {"op": "delimited", "x": {"op": "and", "x": {"op": "list", "x": _b('a')}, "y": {"op": "list", "x": _b('b')}}, "open": _w("("), "close": _w(")")}),
+    ("list[empty-word]", "regex:list-of-epsilon-automaton", {"op": "list", "x": {"op": "word", "s": []}}),
+    ("list[eps-by-inter]", "regex:list-of-epsilon-automaton", {"op": "list", "x": {"op": "and", "x": {"op": "list", "x": _b('a')}, "y": {"op": "list", "x": _b('b')}}}),
+    ("cat[list-of-repeat_at_most0]", "regex:list-of-epsilon-automaton", {"op": "cat", "xs": [_b('a'), {"op": "list", "x": {"op": "repeat_at_most", "x": _b('b'), "n": 0}}]}),
     ("mark[any]", "regex:mark-over-any-or-neg", {"op": "mark_bytes", "x": {"op": "cat", "xs": [_b('a'), {"op": "any"}]}, "set": [97], "m": 1}),
     ("mark[neg]", "regex:mark-over-any-or-neg", {"op": "mark_bytes", "x": {"op": "neg", "x": _w("b")}, "set": [97], "m": 1}),
 ]
@@ -2036,7 +2039,8 @@ def product_candidates(tier):
     red = REDUCED if tier == "quick" else REDUCED + ["[ab]*", "a(ba)*", "(ab|a)*", "([a:1]b)+"]
     tri = TRIPLE if tier == "quick" else REDUCED[:8]
     out = []
-    add = lambda op, names, r: out.append((f"prod/{op}({','.join(names)})", f"regex:{op}", r))
+    # list(eps) shares its role key with the probes of the same root cause (DEFECT_PROBES)
+    add = lambda op, names, r: out.append((f"prod/{op}({','.join(names)})", "regex:list-of-epsilon-automaton" if (op, names) == ("list", ["eps"]) else f"regex:{op}", r))
     for x in full:
         for op in UNARY_OPS:
             add(op, [x], _u(op, L[x]))
